@@ -330,7 +330,14 @@ def _borrowed(modname, fname):
 BORROWED = [_borrowed("c04", "r1_typestate"), _borrowed("c04", "r6_single_writer")]
 
 
-RULES = [r1_who_keeps_stopped_pending, r2_service_handle, r3_writer_stops_last, r4_http_stop_arm] + BORROWED
+
+def rspawn_vetted_spawn_sites(ctx):
+    """work is detached only at the vetted sites"""
+    from .common import vetted_spawns
+    vetted_spawns(ctx, "C10.SPAWN")
+
+
+RULES = [r1_who_keeps_stopped_pending, r2_service_handle, r3_writer_stops_last, r4_http_stop_arm, rspawn_vetted_spawn_sites] + BORROWED
 
 LEVEL_TEXT = (
     "Only the ownership / ordering skeleton of graceful stop is decided (the statement quantifies over schedules): which "
